@@ -36,14 +36,15 @@ MANIFEST = {
                 "by the checker: per slot construct (assign|read)* destroy, sources live, blocks allocated once / freed once with nothing live inside, "
                 "nothing live at the end; the destructors are always defined), lifecycle_prefix_ok, no_fault (no operation of a reachable state takes a "
                 "cannot-happen exit), blocks_released_only_by_destructor, copy_fresh(+_arr) (distinct variables never share a slot/storage), "
+                "copy_equal_list / _array / _node (right after copy construction or assignment the destination has the contents of the source, all copyable kinds), keys_ok, "
                 "copy_independent(+_arr) (an operation leaves every container it does not target unchanged, slots and abstract value), assign_self_noop, "
                 "append_ref / resize_ref / append_ptr / append_self _as_if_copied (Array), list_insert_self_as_if_copied, ref_arg_as_if_copied (any step with a "
-                "reference operand = same step with a temporary copy, up to the log) with Map/HashMap/List operation-level corollaries. "
+                "reference operand = same step with a temporary copy, up to the log) with Map/HashMap/List operation-level corollaries, "
+                "set_append_self_noop, set_remove_self_empties. No OPEN statement, no _partial theorem. "
                 "Tie to the current headers on every run: exhaustive small scope per container, Array alias ops at every size/capacity boundary, random histories, "
                 "ASan/UBSan, ledger arithmetic (constructed - destroyed = live = sum of sizes + sentinels, zero misuse counters, no block left) and "
                 "as-if-copied contents by the reference.",
-        "note": _COMMON_NOTE + " OPEN in Props.lean (only tested): copy_equal for the keyed kinds unless listed as proved in the evidence "
-                "(open_statements).",
+        "note": _COMMON_NOTE,
         "design_ref": "DESIGN.md 3/C04",
     },
     "C05": {
@@ -63,11 +64,7 @@ MANIFEST = {
     },
 }
 
-OPEN = {
-    "C04": ["copy_equal for containers whose proof is not in Props.lean (see Props.lean OPEN block): a copy has the contents of its source right after the copy - "
-            "tested by the correspondence and the reference only"],
-    "C05": [],
-}
+OPEN = {"C04": [], "C05": []}
 
 KINDS = "ALMUHSPQ"
 FIELDS = {"A": 1, "L": 1, "M": 2, "U": 2, "H": 2, "S": 1, "P": 1, "Q": 2}
